@@ -92,6 +92,11 @@ class YowNetworkLayer(YowLayer, ConnectionCallbacks):
         self._dispatcher.connect(endpoint)
 
     def destroyConnection(self, reason=None):
+        if self.state == self.__class__.STATE_DISCONNECTED:
+            # nothing to tear down (e.g. a layer asks to disconnect right after a stream error already closed the
+            # connection); going through the motions again would announce the same connection as down a second time
+            logger.debug("Received disconnect request while not connected")
+            return
         self._disconnect_reason = reason
         self.state = self.__class__.STATE_DISCONNECTING
         self._dispatcher.disconnect()
